@@ -2515,6 +2515,14 @@ class Engine:
         elif c.closed:
             v, ok = self.zero(et), False
         else:
+            wb = st.world.get("when_blocked", ())
+            if wb:
+                # cooperative scheduling: the thread blocks, a function registered with zzverif.WhenBlocked runs (natively it is a
+                # goroutine that has been waiting for what this thread sent), then the receive is tried again
+                st.world["when_blocked"] = wb[1:]
+                self.push_call(st, wb[0].fn, [], wb[0].binds)
+                st.frames[-1].discard = True
+                return
             raise PathEnd("blocked", "recv on empty channel")
         fr.locals[ins["r"]] = (v, ok) if ins["commaok"] else v
         fr.i += 1
